@@ -4,7 +4,8 @@
    kind = synchronous or asynchronous iterable; callbacks are arbitrary functions. *)
 From AV Require Import Base Itertools ItertoolsProofs ItertoolsTee ItertoolsAlias.
 
-Theorem C19_accumulate_agrees : forall (f : Z -> Z -> Z) (initial : option Z) (s : src),
+(* callbacks of accumulate / reduce may raise: `f a b = None` is a TypeError (e.g. arithmetic on None) *)
+Theorem C19_accumulate_agrees : forall (f : Z -> Z -> option Z) (initial : option Z) (s : src),
   outcome (accumulate_model f initial s) = accumulate_spec f initial (snd s).
 Proof. exact accumulate_agrees. Qed.
 Print Assumptions C19_accumulate_agrees.
@@ -133,7 +134,7 @@ Theorem C19_zip_longest_fuel_ok : forall (fill : Z) (ss : list src), zip_longest
 Proof. exact zip_longest_fuel_ok. Qed.
 Print Assumptions C19_zip_longest_fuel_ok.
 
-Theorem C19_reduce_agrees : forall (f : Z -> Z -> Z) (initial : option Z) (s : src),
+Theorem C19_reduce_agrees : forall (f : Z -> Z -> option Z) (initial : option Z) (s : src),
   outcome (reduce_model f initial s false) = reduce_spec f initial (snd s).
 Proof. exact reduce_agrees. Qed.
 Print Assumptions C19_reduce_agrees.
